@@ -3,6 +3,7 @@ package vk
 import (
 	"bytes"
 	"fmt"
+	"os"
 	"sort"
 	"strings"
 	"time"
@@ -30,6 +31,9 @@ func ValidateTraces(run *Run, module, cfg string, traces [][]string, dfs bool) (
 				b.WriteByte('\n')
 				line++
 			}
+		}
+		if d := os.Getenv("VERIF_TRACE_DUMP"); d != "" {
+			os.WriteFile(d, b.Bytes(), 0o644)
 		}
 		res, terr := RunTLC(TLCOpts{Module: module, Config: cfg, Workers: 1, Timeout: 15 * time.Minute,
 			ExtraFiles: map[string][]byte{"trace.ndjson": b.Bytes()}, DFS: dfs})
